@@ -11,6 +11,7 @@
 #include <assert.h>
 #include <fcntl.h>
 #include <grp.h>
+#include <limits.h>
 #include <poll.h>
 #include <stdlib.h>
 #include <string.h>
@@ -137,7 +138,8 @@ int main(int argc, const char **argv) {
   };
 
   for (;;) {
-    int status = poll(&pollfd, 1, pause * 1000);
+    int status =
+        poll(&pollfd, 1, pause > INT_MAX / 1000 ? INT_MAX : pause * 1000);
     if (status < 0 || (status > 0 && pollfd.revents ^ POLLIN)) {
       throw_errno(trace);
       throw_static(messages.main.fanotify.cannot_poll, trace);
